@@ -800,18 +800,19 @@ pub fn preprocess_str<T: AsRef<Path>, U: AsRef<Path>, V: BuildHasher>(
 
                 let (_, ref x) = x.nodes;
                 let locate: Locate = x.try_into().unwrap();
-                let x = locate.str(s);
-                if x.starts_with("__FILE__") {
+                let (keyword, _) = x.nodes;
+                let x = keyword.str(s);
+                if x == "__FILE__" {
                     ret.push::<PathBuf>(
-                        &x.replace(
-                            "__FILE__",
-                            &format!("\"{}\"", path.as_ref().to_string_lossy()),
-                        ),
+                        &format!("\"{}\"", path.as_ref().to_string_lossy()),
                         None,
                     );
-                } else if x.starts_with("__LINE__") {
-                    ret.push::<PathBuf>(&x.replace("__LINE__", &format!("{}", locate.line)), None);
+                } else if x == "__LINE__" {
+                    ret.push::<PathBuf>(&format!("{}", locate.line), None);
                 }
+                // The white space after the keyword is copied from the source.
+                let range = Range::new(keyword.offset + keyword.len, locate.offset + locate.len);
+                ret.push(&s[range.begin..range.end], Some((path.as_ref(), range)));
             }
             _ => (),
         }
